@@ -147,7 +147,20 @@ def run(facts, R):
     ws = Sym(wb)
     rmw = [term_pt(wb, i) for i, t in wb.calls() if callee_matches(t["callee"], "client::Client::remove_pending") and ws.op(t["args"][1]) == ("arg", 2, "id")]
     errs = blocks_assigning_variant(wb, "std::result::Result", "Err")
-    R.floor("pending-removed-on-abandon", len(errs), 3, "failure rows of wait_for_response")
+    R.floor("pending-removed-on-abandon", len(errs), 1, "failure rows of wait_for_response")
+    # every failed receive (timeout, disconnected) leads to the return only through remove_pending(id)
+    has = set()
+    for x in sorted(wb.live_blocks()):
+        for f in facts_at(wb, ws, facts, x):
+            if str(f["val"]) == "Err" and is_call(f["expr"], "recv", "recv_timeout"):
+                has.add(x)
+    preds = wb.preds()
+    recv_fail = [(x, 0) for x in sorted(has) if any(p_ not in has for p_ in preds.get(x, []))]   # entry blocks of the failure regions
+    R.floor("pending-removed-on-abandon", len({p_[0] for p_ in recv_fail}) and len([1 for i, t in wb.calls() if t["callee"]["name"] in ("recv", "recv_timeout")]), 2,
+            "receive calls in wait_for_response with a failure edge")
+    w = must_cross(wb, recv_fail, return_points(wb), rmw, after_start=False)
+    R.check(w is None and bool(recv_fail), "pending-removed-on-abandon", wb.path, "failed receive removes the entry",
+            "a timed-out / disconnected receive reaches the return without remove_pending(id)", wb.span, "remove_pending(id) on every failure edge", path=w)
     for i, j, s in errs:
         w = must_cross(wb, [(0, 0)], [(i, j)], rmw, after_start=False)
         R.check(w is None, "pending-removed-on-abandon", wb.path, "failure row removes the entry",
@@ -244,12 +257,31 @@ def run(facts, R):
             key = ds.op(t["args"][1])
             fs = facts_at(dp, ds, facts, i)
             okk = key[0] == "field" and key[2] == "request_id"
-            okd = any(f["expr"][0] == "field" and f["expr"][2] == "disarmed" and f["val"] is False for f in fs)
+            gadt = module + "::PendingRequestGuard"
+            gflds = facts.adt_fields(gadt)
+            flag = vrm = None
+            for f in fs:
+                if f["expr"][0] == "field" and f["expr"][2] in gflds and isinstance(f["val"], bool):
+                    flag, vrm = f["expr"][2], f["val"]
+            okd = flag is not None
             R.check(okk and okd, "pending-removed-on-abandon", dp.path, "remove(self.request_id) unless disarmed",
-                    "Drop removes %s under %s" % (render(key), texts(fs)), t.get("span"), "pending.remove(self.request_id) on the !disarmed edge")
-        for w in field_writes(facts, module + "::PendingRequestGuard", "disarmed"):
-            R.check(w["body"].path == module + "::PendingRequestGuard::disarm", "pending-removed-on-abandon", w["body"].path, "disarmed written only by disarm()",
-                    "`disarmed` is set outside disarm()", w["span"])
+                    "Drop removes %s under %s" % (render(key), texts(fs)), t.get("span"), "pending.remove(self.request_id) on the `%s == %s` edge" % (flag, vrm))
+            if flag is None:
+                continue
+            # the flag starts in the removing state and only disarm() flips it
+            from analysis.guards import struct_constructions
+            for cb, ci, cj, cst in struct_constructions(facts, gadt):
+                init = dict(zip(cst["rv"]["fields"], cst["rv"]["ops"])).get(flag)
+                iv = const_val(Sym(cb).op(init)) if init is not None else None
+                R.check(iv is not None and bool(iv) == vrm, "pending-removed-on-abandon", cb.path, "guard starts armed",
+                        "a PendingRequestGuard is built with %s = %s: its Drop would not remove the entry" % (flag, iv), cst.get("span"), "%s = %s" % (flag, vrm))
+            for w in field_writes(facts, gadt, flag):
+                okw = w["body"].path == gadt + "::disarm"
+                if okw and w["kind"] == "store":
+                    wv = const_val(Sym(w["body"]).rvalue(w["rv"]))
+                    okw = wv is not None and bool(wv) == (not vrm)
+                R.check(okw, "pending-removed-on-abandon", w["body"].path, "flag flipped only by disarm()",
+                        "`%s` is written outside disarm() or to the arming value" % flag, w["span"])
 
     # Drop for the blocking client's inner state fails its waiters (backs the upgrade-none exception)
     for path, mod in (("<client::ClientInner as std::ops::Drop>::drop", "client"),):
